@@ -1,60 +1,46 @@
 """C06 — basic exception guarantee (DESIGN section 6, C06)."""
-from .. import common, corpus, irrules
+from .. import common
+from . import parts
+
+
+def keep(part, x):
+    if part == 'ir_alloc':
+        ok = (x.ok and x.sample and x.sample.get('exit') in ('unwind',)) or (not x.ok and x.key.get('exit') == 'unwind')
+        if ok:
+            x.rule = 'R06.1'
+            if not x.ok:
+                x.message = x.message.replace('R04.1', 'R06.1')
+        return ok
+    if part == 'ir_noexcept':
+        return x.rule == 'R06.4'
+    if part == 'ir_pair':
+        if x.rule != 'R02.1':
+            return False
+        ok = (x.ok and x.sample.get('exit') == 'unwind') or (not x.ok and x.key.get('exit') == 'unwind')
+        if ok:
+            x.rule = 'R06.5'
+            if not x.ok:
+                x.message = x.message.replace('R02.1', 'R06.5')
+        return ok
+    return True
 
 
 def run(tier):
     ck = common.Check('C06', tier)
-    cfgs = corpus.corpus(tier)
-    # R06.1: no block leaked on any exception edge (R04.1 restricted to exceptional exits)
-    res = corpus.run_over(cfgs, 'svlib.rules.ir_alloc', 'analyse_tu')
-    for r in res:
-        if r['ok']:
-            keep = []
-            for x in r['res']['reports']:
-                if (x.ok and x.sample and x.sample.get('exit') == 'unwind') or \
-                        (not x.ok and x.key.get('exit') == 'unwind'):
-                    x.rule = 'R06.1'
-                    if not x.ok:
-                        x.message = x.message.replace('R04.1', 'R06.1')
-                    keep.append(x)
-            r['res']['reports'] = keep
-    irrules.aggregate(ck, res)
-    # R06.4: catch-all handlers re-throw
-    res = corpus.run_over(cfgs, 'svlib.rules.ir_noexcept', 'analyse_tu')
-    for r in res:
-        if r['ok']:
-            r['res']['reports'] = [x for x in r['res']['reports'] if x.rule == 'R06.4']
-    irrules.aggregate(ck, res)
-    ck.floor('catch-all handlers examined', sum(r['res']['catch_handlers'] for r in res),
+    res = parts.run_parts(ck, tier, ir_parts=('ir_alloc', 'ir_noexcept', 'ir_pair', 'ir_size', 'ir_lifetime'),
+                          rule_filter=lambda p, x: keep(p, x) and (p != 'ir_lifetime' or x.rule == 'R03.2'))
+    r = res.get('ir_noexcept', [])
+    ck.floor('catch-all handlers examined', sum(x['res']['catch_handlers'] for x in r if x['ok']),
              500 if tier == 'quick' else 5000)
-    # R06.5: consistent words at exceptional exits (R02.1 restricted to unwind exits)
-    res = corpus.run_over(cfgs, 'svlib.rules.ir_pair', 'analyse_tu')
-    for r in res:
-        if r['ok']:
-            keep = []
-            for x in r['res']['reports']:
-                if x.rule != 'R02.1':
-                    continue
-                if (x.ok and x.sample.get('exit') == 'unwind') or (not x.ok and x.key.get('exit') == 'unwind'):
-                    x.rule = 'R06.5'
-                    if not x.ok:
-                        x.message = x.message.replace('R02.1', 'R06.5')
-                    keep.append(x)
-            r['res']['reports'] = keep
-    irrules.aggregate(ck, res)
-    for part in ('ir_size',):
-        try:
-            __import__('svlib.rules.' + part)
-        except ImportError:
-            ck.note('R06.3 part not available')
-            continue
-        res = corpus.run_over(cfgs, 'svlib.rules.' + part, 'analyse_tu')
-        irrules.aggregate(ck, res)
+    r = res.get('ir_size', [])
+    ck.floor('size updates examined', sum(x['res']['size_updates'] for x in r if x['ok']), 1000 if tier == 'quick' else 10000)
+    ck.extra['size_updates_order_only'] = sum(x['res']['order_only'] for x in r if x['ok'])
     ck.assumptions += ['element destructors and allocator deallocate do not throw',
                        'clang 14 lowering of try/catch (landingpad, __cxa_begin_catch, __cxa_rethrow)']
     ck.finish(
         'Every exception edge of every instantiated gch:: function (invoke unwind edges, catch handlers, nested handlers): '
-        'R06.1 no allocation is live-and-unowned when an exception leaves a function; R06.4 every catch-all handler '
-        're-throws on every path; R06.5 the (pointer, capacity) words of every written container are consistent at '
-        'exceptional exits; R06.3 size is advanced only after the elements it covers exist. Not decided: exact count of '
-        'live elements inside nested roll-back handlers.')
+        'R06.1 no allocation is live-and-unowned when an exception leaves a function; R06.2 construct loops destroy their partial range; '
+        'R06.4 every catch-all handler re-throws on every path; R06.5 the (pointer, capacity) words of every written container are '
+        'consistent at exceptional exits; R06.3 size is advanced only after a construction that starts at the old end (length agreement '
+        'where both ends are closed terms, otherwise order-only) and decreased only together with the destruction of exactly the '
+        'elements cut off. Not decided: exact count of live elements inside nested roll-back handlers.')
